@@ -1,6 +1,6 @@
 From Coq Require Import Extraction ExtrOcamlBasic QArith.
-From BCT Require Import Model.Distance.
+From BCT Require Import Model.Distance Model.DistanceExt.
 Extraction Language OCaml.
 (* coqc runs with cwd = /verif/coq *)
 Extraction "../ocaml/gen/c03_model.ml" run_floyd run_dbin run_breadthdist run_reachdist run_dwei
-  run_charpath run_effbin run_effwei run_rout Qred Z.add.
+  run_charpath run_effbin run_effwei run_rout run_charpath_x run_effbin_x run_effwei_x Qred Z.add.
